@@ -63,11 +63,68 @@ theorem text_load_energy (C : Container) (s : ℕ → ℤ) :
   refine ⟨_, load_render_export '#' (Or.inl rfl) C.n C.J C.h C.ci, ?_⟩
   exact et_energy_max_one (loadFile C.exportIsing) (et_loadFile_dim_zero _) s
 
+/-- the shape `max 1 dim` that the text-level loader reports does not change the QUBO energy (QUBO counterpart of
+    `et_energy_max_one`): a file without records has no entry, so the extra index contributes nothing -/
+theorem qubo_energy_max_one (L : Loaded) (h : L.dim = 0 → L.entries = []) (x : ℕ → ℤ) :
+    ({ dim := max 1 L.dim, entries := L.entries, const := L.const } : Loaded).quboEnergy100 x
+      = L.quboEnergy100 x := by
+  by_cases h0 : L.dim = 0
+  · simp [Loaded.quboEnergy100, sumToI, Loaded.entry, h h0, h0]
+  · have : max 1 L.dim = L.dim := by omega
+    rw [this]
+
+/-- QUBO counterpart of `text_load_energy`: the text-level loader (comment character `c`, as `export` writes QUBO
+    files) and the record-level loader give the same QUBO energy at every assignment -/
+theorem text_load_energy_qubo (C : Container) (x : ℕ → ℤ) :
+    ∃ L, loadText 'c' (renderLines 'c' C.exportQubo) = some L ∧
+      L.quboEnergy100 x = (loadFile C.exportQubo).quboEnergy100 x := by
+  refine ⟨_, load_render_export 'c' (Or.inr rfl) C.n C.Q (fun i => C.Q i i) C.cq, ?_⟩
+  exact qubo_energy_max_one (loadFile C.exportQubo) (et_loadFile_dim_zero _) x
+
+/-- **text level, composed with `C10.load_export_energy_qubo`**: parsing the characters that `export` writes for the
+    QUBO gives a matrix and a constant whose quadratic form is that of the ROUNDED in-memory QUBO, at every assignment
+    (units of 1/100; `coeff100 Q (diag Q) i j` is the rounded coefficient written for `(i, j)`) -/
+theorem text_load_export_energy_qubo (C : Container) (x : ℕ → ℤ) :
+    ∃ L, loadText 'c' (renderLines 'c' C.exportQubo) = some L ∧
+      L.quboEnergy100 x
+        = sumToI C.n (fun i => sumToI C.n fun j => C10.coeff100 C.Q (fun i => C.Q i i) i j * x i * x j)
+          + round2 C.cq := by
+  obtain ⟨L, hL, hE⟩ := text_load_energy_qubo C x
+  exact ⟨L, hL, hE.trans (C10.load_export_energy_qubo C x)⟩
+
+/-- the same for binary assignments, with the diagonal as the linear term (`C10.load_export_energy_qubo_binary`) -/
+theorem text_load_export_energy_qubo_binary (C : Container) (x : ℕ → ℤ) (hx : ∀ i, x i = 0 ∨ x i = 1) :
+    ∃ L, loadText 'c' (renderLines 'c' C.exportQubo) = some L ∧
+      L.quboEnergy100 x
+        = sumToI C.n (fun i => sumToI C.n fun j =>
+            if i = j then 0 else C10.coeff100 C.Q (fun i => C.Q i i) i j * x i * x j)
+          + sumToI C.n (fun i => C10.coeff100 C.Q (fun i => C.Q i i) i i * x i) + round2 C.cq := by
+  obtain ⟨L, hL, hE⟩ := text_load_energy_qubo C x
+  exact ⟨L, hL, hE.trans (C10.load_export_energy_qubo_binary C x hx)⟩
+
+/-- the Ising statement composed in the same way (`C10.load_export_energy`) -/
+theorem text_load_export_energy (C : Container) (s : ℕ → ℤ) :
+    ∃ L, loadText '#' (renderLines '#' C.exportIsing) = some L ∧
+      L.isingEnergy100 s
+        = sumToI C.n (fun i => sumToI C.n fun j => if i = j then 0 else C10.coeff100 C.J C.h i j * s i * s j)
+          + sumToI C.n (fun i => C10.coeff100 C.J C.h i i * s i) + round2 C.ci := by
+  obtain ⟨L, hL, hE⟩ := text_load_energy C s
+  exact ⟨L, hL, hE.trans (C10.load_export_energy C s)⟩
+
 /-- non-vacuity / regression: a concrete file with a negative value rounding to `-0.00`, a two-digit index and
     a value without sign -/
 example :
     loadText '#' (renderLines '#' ⟨125, false, [⟨0, 0, 0, true⟩, ⟨12, 12, -50, true⟩], [⟨0, 12, 200, false⟩]⟩)
       = some { dim := 13, entries := [(0, 0, 0), (12, 12, -50), (0, 12, 200)], const := 125 } := by
+  decide +kernel
+
+/-- the same file written as a QUBO file (comment character `c`): read back with the same records, and its QUBO
+    energy at `x = (1, 0, …, 0, 1)` (indices 0 and 12) is `0·1 − 50·1 + 200·1 + 125 = 275` hundredths -/
+example :
+    loadText 'c' (renderLines 'c' ⟨125, false, [⟨0, 0, 0, true⟩, ⟨12, 12, -50, true⟩], [⟨0, 12, 200, false⟩]⟩)
+      = some { dim := 13, entries := [(0, 0, 0), (12, 12, -50), (0, 12, 200)], const := 125 } ∧
+    ({ dim := 13, entries := [(0, 0, 0), (12, 12, -50), (0, 12, 200)], const := 125 } : Loaded).quboEnergy100
+      (fun i => if i = 0 ∨ i = 12 then 1 else 0) = 275 := by
   decide +kernel
 
 /-- a sign-inconsistent record is *not* read back (the hypothesis `FileOK` is needed) -/
